@@ -34,7 +34,7 @@ func genLoss(t *rapid.T) LossCase {
 }
 
 func runLoss(c LossCase) ev.Verdict {
-	length, err := dryRun(&c.Case)
+	length, _, err := dryRun(&c.Case)
 	if err != nil {
 		return ev.Fail("dry run (%s): %v", c.Op, err)
 	}
@@ -66,7 +66,7 @@ func runLoss(c LossCase) ev.Verdict {
 		return ev.Fail("prepare: %v", err)
 	}
 
-	time.Sleep(20 * time.Millisecond)
+	quiesce(s.pipe)
 
 	rd := time.Duration(c.ReadDelayNS)
 	prompt := 50*rd + 10*time.Millisecond
@@ -129,6 +129,15 @@ func runLoss(c LossCase) ev.Verdict {
 			if q.After(t0) {
 				lossAt = q
 			}
+		}
+
+		if os.Getenv("DBG_CASE") != "" {
+			evs := s.pipe.Events()
+			for _, e := range evs[max(0, len(evs)-14):] {
+				fmt.Printf("%s @%v delivered=%d %.40q\n", e.Kind, e.At, e.Delivered, e.Data)
+			}
+
+			fmt.Println("start", start, "k", k, "length", length)
 		}
 
 		if operr == nil {
